@@ -43,7 +43,7 @@ for pid in sorted(MODS):
     sweep = []
     for tier in ("quick", "thorough"):
         last = None
-        for lf in ["/verif/out/logs/final_quick_s1.log"] + sorted(glob.glob("/verif/out/logs/final_thorough_*.log")) + sorted(glob.glob("/verif/out/logs/final2_*.log")):
+        for lf in ["/verif/out/logs/final_quick_s1.log"] + sorted(glob.glob("/verif/out/logs/final_thorough_*.log")) + sorted(glob.glob("/verif/out/logs/final2_*.log")) + sorted(glob.glob("/verif/out/logs/final3_*.log")):
             if not os.path.exists(lf):
                 continue
             for l in open(lf, errors="replace"):
